@@ -41,6 +41,8 @@ ATOMS = {
     "seg2": ("/([^/]+)/([^/]+)", True),
     "namedsuffix": ("/(?P<x>[^/]+)/b", True),
     "pctgroup": (E("/%41/") + "([^/]+)", True),  # literal % and a group
+    "grouppct": ("/([^/]+)" + E("/my%20f"), True),   # literal % *after* a group
+    "pctgrouppct": (E("/1%25/") + "([a-z]+)" + E("/%41/") + "([^/]+)" + E("/%"), True),
     "anchored": ("^" + E("/a") + "$", True),
     "opt": ("/a/?([a-z]+)?", False),             # optional group -> None argument
     "regexdot": ("/a.b", False),                 # unescaped metacharacter
@@ -55,7 +57,7 @@ NESTED = {
 }
 ATOMS["nestseg"] = ("/a/([^/]+)", True)
 TOP_ATOMS = ["lit", "lit2", "litdot", "litpct", "litdollar", "any", "seg", "named", "seg2",
-             "namedsuffix", "pctgroup", "anchored", "opt", "regexdot",
+             "namedsuffix", "pctgroup", "grouppct", "pctgrouppct", "anchored", "opt", "regexdot",
              "nest", "nestfall", "hosta", "hostba"]
 
 SEGS = ["a", "b", "a.b", "aXb", "%41", "A", "a%2Fb", "%", "a$", "a$b", "a+b", "c%C3%A9", "", "ab"]
